@@ -255,16 +255,20 @@ class VttContext:
 
     LOGGER.debug("Check and process the last VTT paragraph.")
 
-    if self._paragraphs and self._paragraphs[-1].get_end() is None:
-      if self._paragraphs[-1].is_only_whitespace_or_empty():
-        # if the last paragraph contains only whitespace, remove it
-        LOGGER.debug("Removing empty unbounded last paragraph.")
-        self._paragraphs.pop()
+    # with line positions each region yields its own cue: several cues can be unbounded, not only the last one
+    for cue in list(self._paragraphs):
+      if cue.get_end() is not None:
+        continue
+
+      if cue.is_only_whitespace_or_empty():
+        # if an unbounded paragraph contains only whitespace, remove it
+        LOGGER.debug("Removing empty unbounded paragraph.")
+        self._paragraphs.remove(cue)
 
       else:
         # set default end time code
         LOGGER.warning("Set a default end value to paragraph (begin + 10s).")
-        self._paragraphs[-1].set_end(self._paragraphs[-1].get_begin().to_seconds() + 10.0)
+        cue.set_end(cue.get_begin().to_seconds() + 10.0)
 
   def style_block(self):
     """Generated CSS INLINE STYLE Block"""
